@@ -7,7 +7,7 @@ META = {
     "decided": [
         "03.a stepping month by month moves by exactly n on the month line of ANY leap table: forward then back returns to the same month, the leap month directly follows the regular month of the same number (= 11.e)",
         "03.c LunarMonth::new: accepted iff month in 1..12 or the negative of the year's leap month; index in year = month - 1 (+1 for the leap month and after it); 12 or 13 positions (engine B, any leap table, any astronomy)",
-        "03.b a lunar year lists its 12 or 13 months in index order (Kani: thorough tier, = 13.c; engine B: the listing loop on a month line, quick tier too)",
+        "03.b a lunar year lists its 12 or 13 months in index order (engine B: the listing loop on a month line, both tiers; the Kani version over a symbolic leap window is C13's thorough obligation 13.c)",
         "03.d the year's day count is the sum of the day counts of the listed months (summing loop unrolled, bound proved), hence 348..360 / 377..390 for 29..30-day months and, wherever months abut, the distance between successive new-year days",
     ],
     "outside": ["29/30-day month lengths, exact abutment of consecutive months, 353-355 / 383-385-day years, agreement of per-month and per-year day counts with new-year distances: facts about ~123,700 evaluated lunations of the real new-moon series (no symbolic handle: sin/cos series)"],
@@ -18,8 +18,8 @@ def jobs(tier, seed):
     J = [j for j in c11.jobs(tier, seed) if j.id.startswith("11.e")]
     for j in J:
         j.clause = "03.a"
-    if tier == "thorough":
-        J += [j for j in c13.jobs(tier, seed) if j.id.startswith("13.c")]
+    # the Kani version of the year listing (13.c, a 40-minute obligation that timed out in the session's thorough sweep) is run under C13 only;
+    # here the listing loop is decided by engine B (13.c/B) in both tiers
     return J
 
 def engine_b(tier, seed, scr):
